@@ -132,6 +132,32 @@ fn body(name: &str, v: &[u64]) -> Result<(), String> {
             }
             Ok(())
         }
+        "c07_relu_every_finite_float" | "c07_leaky_relu_every_finite_float" | "c07_linear_every_finite_float" => {
+            use neurons::activation::Function;
+            use neurons::tensor::{Data, Tensor};
+            let x = f(0);
+            let act = match name {
+                "c07_relu_every_finite_float" => Activation::ReLU,
+                "c07_leaky_relu_every_finite_float" => Activation::LeakyReLU,
+                _ => Activation::Linear,
+            };
+            let fun = Function::create(&act);
+            let t = Tensor::single(vec![x]);
+            let one = |t: &Tensor| match &t.data {
+                Data::Single(v) if v.len() == 1 => v[0],
+                _ => f32::NAN,
+            };
+            let (y, d) = (one(&fun.forward(&t)), one(&fun.backward(&t)));
+            let (wy, wd) = match name {
+                "c07_relu_every_finite_float" => (if x > 0.0 { x } else { 0.0 }, if x > 0.0 { 1.0 } else { 0.0 }),
+                "c07_leaky_relu_every_finite_float" => (if x > 0.0 { x } else { 0.01 * x }, if x > 0.0 { 1.0 } else { 0.01 }),
+                _ => (x, 1.0),
+            };
+            if !(y == wy && d == wd && y.is_finite()) {
+                return Err(format!("x = {:e}: forward {:e} (expected {:e}), backward {:e} (expected {:e})", x, y, wy, d, wd));
+            }
+            Ok(())
+        }
         other => Err(format!("NO-NATIVE-COUNTERPART {}", other)),
     }
 }
